@@ -33,8 +33,10 @@
 (* or one of the named values                                              *)
 (* "neg" (-1), "p63" (2^63), "wrap" (2^63 + MinUnit: doubles to an         *)
 (* in-range amount modulo 2^64), "u64max" (2^64-1), "over64" (2^64),       *)
-(* "nil" (field absent), "other" (anything else, only ever produced by the *)
-(* projection of a stored record).  The harness maps both ways             *)
+(* "nil" (field absent); and, only ever produced by projecting a concrete   *)
+(* number (stored records, random concrete messages), "big" (any other     *)
+(* amount above 2e9 units) and "other" (below -1).  The harness maps both  *)
+(* ways                                                                    *)
 (* (harness/limitsh/abs.go) and is the only place with real numbers.       *)
 (***************************************************************************)
 EXTENDS Integers, Sequences, FiniteSets, FiniteSetsExt, TLC, Json
@@ -90,7 +92,7 @@ ASSUME /\ Impl \in {"intended", "asfound"}
 Lin(a, b) == [k |-> "lin", a |-> a, b |-> b]
 Sp(k)     == [k |-> k, a |-> 0, b |-> 0]
 IsLin(v)  == v.k = "lin"
-Huge      == {"p63", "wrap", "u64max", "over64"}      \* named values above every limit
+Huge      == {"p63", "wrap", "u64max", "over64", "big"}   \* values above every limit
 
 \* renormalise a*U + b so that b is in [-U/2, U/2)
 Norm(r, a, b) == LET U == Unit[r]
@@ -164,9 +166,9 @@ WithinLimits(d) == \A c \in Clauses : ClauseHolds(c, d)
 (* The procedure: x/deployment/types + handler/server.go, check by check, first failure wins *)
 
 GTa(v, hi) == v.k \in Huge \/ (IsLin(v) /\ ~LEa(v, hi))
-LTa(v, lo) == v.k = "neg" \/ (IsLin(v) /\ ~GEa(v, lo))
+LTa(v, lo) == v.k \in {"neg", "other"} \/ (IsLin(v) /\ ~GEa(v, lo))
 GTl(v, x)  == v.k \in Huge \/ (IsLin(v) /\ ~LEl(v, x))
-LTl(v, x)  == v.k = "neg" \/ (IsLin(v) /\ ~GEl(v, x))
+LTl(v, x)  == v.k \in {"neg", "other"} \/ (IsLin(v) /\ ~GEl(v, x))
 
 \* validateCPU / validateMemory / validateStorage: nil check, then ResourceValue.Value() = Int.Uint64(), which
 \* panics outside 0..2^64-1 (runTx recovers: the transaction fails), then the two-sided bound
@@ -200,7 +202,7 @@ TotalBad(us, r) == LET t == Acc(us, r, Len(us))
 \* validateUnitPricing + the denomination check of validateGroupPricing, unit after unit
 ValidDenom(d) == d # ""
 PriceVerdict(u) ==
-    IF u.price.k = "neg" \/ ~ValidDenom(u.pdenom) THEN "price-invalid"      \* Coin.IsValid
+    IF u.price.k \in {"neg", "other"} \/ ~ValidDenom(u.pdenom) THEN "price-invalid"      \* Coin.IsValid
     ELSE IF GTa(u.price, MaxUnitPrice) THEN "price-range"
     ELSE IF LTa(u.price, MinUnitPrice) THEN "price-range"
     ELSE IF u.pdenom # Denom THEN "price-denom"
